@@ -2,6 +2,7 @@
 import contextlib
 import os
 import re
+import sys
 
 import core
 from encode import Opaque, ProbeResult, decode, encode, to_literal
@@ -19,6 +20,10 @@ class HookError(Exception):
 
 class Marker(Exception):
   pass
+
+
+class BaseMarker(BaseException):
+  """Leaves a block the way KeyboardInterrupt / SystemExit / GeneratorExit do."""
 
 
 class Session:
@@ -418,8 +423,8 @@ class Session:
         for b in op['body']:
           outs.append(self.run_op(b))
         if op['raises']:
-          raise Marker()
-    except Marker:
+          raise (BaseMarker() if op.get('_base') else Marker())
+    except (Marker, BaseMarker):
       pass
     return {'body': outs}
 
@@ -461,6 +466,10 @@ class Session:
     return self._tmp
 
   def cleanup(self):
+    for sp in getattr(self, '_added_paths', []):
+      if sp in sys.path:
+        sys.path.remove(sp)
+    self._added_paths = []
     if getattr(self, '_tmp', None):
       import shutil
       shutil.rmtree(self._tmp, ignore_errors=True)
@@ -540,7 +549,23 @@ class Session:
       name = os.path.join(base, 'absdir', name)
       os.makedirs(os.path.dirname(name), exist_ok=True)
     tables = {}
+    pkgdir = None
+    if op.get('_pkg'):
+      # the name is `<package>/<file>`: gin's package-relative reader (registered right after `open`)
+      # looks for <file> next to the package's __init__.py on the Python path
+      sp = os.path.join(base, 'on_sys_path')
+      pkgdir = os.path.join(sp, os.path.dirname(name))
+      os.makedirs(pkgdir, exist_ok=True)
+      with open(os.path.join(pkgdir, '__init__.py'), 'w') as f:
+        f.write('')
+      if sp not in sys.path:
+        sys.path.insert(0, sp)
+        self._added_paths = getattr(self, '_added_paths', []) + [sp]
+      import importlib
+      importlib.invalidate_caches()
     for r in op['readers'][1:]:
+      if r == 'syspath':
+        continue
       tables[r] = {}
 
       def reader(path, _t=tables[r]):
@@ -552,16 +577,39 @@ class Session:
     for lab, r in op['present']:
       path = name if op['abs'] else os.path.join(locdirs[lab], name)
       content = f"which = '{lab}|{r}'\n"
-      if r == op['readers'][0]:
+      if op.get('_bad_include'):
+        # every copy fails after its first statement: the copy found first is applied up to there, the
+        # IOError of its include propagates, and no later copy may be tried
+        content += "include 'no_such_file_zz.gin'\n"
+      if r == 'syspath':
+        with open(os.path.join(pkgdir, os.path.basename(name)), 'w') as f:
+          f.write(content)
+      elif r == op['readers'][0]:
         real = os.path.join(base, path)   # '' is the current directory = base while parsing
         os.makedirs(os.path.dirname(real) or '.', exist_ok=True)
         with open(real, 'w') as f:
           f.write(content)
       else:
         tables[r][path] = content
+    # a *directory* called like the config file (in a search location, or in a sys.path entry for
+    # the package-relative reader) is not a readable file: the search must walk past it
+    for lab in op.get('_dirs', []):
+      if lab == 'syspath':
+        if pkgdir is not None and ['', 'syspath'] not in [list(x) for x in op['present']]:
+          os.makedirs(os.path.join(pkgdir, os.path.basename(name)), exist_ok=True)
+      elif not op['abs'] and [lab, op['readers'][0]] not in [list(x) for x in op['present']]:
+        os.makedirs(os.path.join(base, os.path.join(locdirs[lab], name)), exist_ok=True)
     cwd = os.getcwd()
     os.chdir(base)   # the location '' is the current directory
     try:
+      if op.get('_bad_include'):
+        try:
+          gin.parse_config_file(name)
+          return {'err': 'NoErrorAlthoughTheIncludeIsMissing'}
+        except IOError as e:
+          if 'no_such_file_zz.gin' not in str(e):
+            raise
+          return {'ok': gin.query_parameter('%which').split('|')}
       gin.parse_config_file(name)
       return {'ok': gin.query_parameter('%which').split('|')}
     except Exception as e:  # pylint: disable=broad-except
